@@ -477,7 +477,9 @@ func c15Generate(tape *simrt.Tape, tier string, illegalGoAway bool) *c15Case {
 		}
 		s.Scheme = []string{"http", "https"}[tape.Choose(2, "scheme")]
 		s.Authority = []string{"example.test", "127.0.0.1:8080"}[tape.Choose(2, "authority")]
-		s.Path = []string{"/connectrpc.conformance.v1.ConformanceService/Unary", "/connectrpc.conformance.v1.ConformanceService/BidiStream", "/svc/Method?x=1&y=2"}[tape.Choose(3, "path")]
+		s.Path = []string{"/connectrpc.conformance.v1.ConformanceService/Unary", "/connectrpc.conformance.v1.ConformanceService/BidiStream", "/svc/Method?x=1&y=2",
+			// '?' is an ordinary character inside a query (RFC 3986 3.4): the target splits at the first one
+			"/svc/Method?x=1?y=2", "/svc/Method?next=/a/b?c=d&e=f", "/svc/Method?q=what?", "/svc/Method?"}[tape.Choose(7, "path")]
 		ct := []string{"application/grpc", "application/grpc+proto"}[tape.Choose(2, "ct")]
 		s.ReqFields = []c15Hdr{{":method", "POST"}, {":scheme", s.Scheme}, {":authority", s.Authority}, {":path", s.Path}, {"content-type", ct}}
 		if e := tape.Choose(3, "reqenc"); e > 0 {
